@@ -410,6 +410,7 @@ func main() {
 	writeConway(*repo, byName["conway"], filepath.Join(*out, "ConwayText.lean"))
 	writeConsts(byName, get, filepath.Join(*out, "Consts.lean"))
 	writeEffects(pkgs, funcs, filepath.Join(*out, "Effects.lean"))
+	writeCode(funcs, filepath.Join(*out, "Code.lean"))
 	if *facts != "" {
 		writeFacts(funcs, *facts)
 	}
